@@ -264,6 +264,9 @@ def insertion_sites(lines, kinds):
     return [k for k in range(1, len(lines) + 1) if kinds[k - 1][0] in ("items", "data")]
 
 
+BLOCK_SITE_LIMIT = 10 ** 9
+
+
 def text_variants_single(lines, kinds, max_sites=None):
     out = []
     sites = insertion_sites(lines, kinds)
@@ -277,6 +280,11 @@ def text_variants_single(lines, kinds, max_sites=None):
             out.append(("T2-comment-hyphen", ("ins", k, "# re-logged 2020-01-02 - run 1-2")))
         if kinds[k - 1][0] == "data" or (k < len(lines) and kinds[k][0] == "data"):
             out.append(("T1-blank-ws", ("ins", k, "   ")))
+            # blocks of blank / comment lines longer than any look-ahead window of the reader (20, 21, 22, 45 lines)
+            if k <= BLOCK_SITE_LIMIT or k >= len(lines) - 2 or kinds[k - 1][1]:
+                for n in (20, 21, 22, 45):
+                    out.append(("T2-comment-block", ("ins", k, "\n".join(["# block comment %d" % q for q in range(n)]))))
+                    out.append(("T1-blank-block", ("ins", k, "\n".join([""] * n))))
     idxs = [i for i in range(len(lines)) if kinds[i][0] in ("items", "data") and lines[i].strip()]
     if max_sites and len(idxs) > max_sites:
         idxs = idxs[: max_sites // 2] + idxs[-(max_sites // 2):]
